@@ -20,6 +20,7 @@ from vlib import engine  # noqa: E402
 E1 = {
     'C01': 'harness.c01_conform',
     'C02': 'harness.c02_accepts',
+    'C03': 'harness.c03_polymorph',
     'C04': 'harness.c04_noconstruct',
     'C08': 'harness.c08_errors',
     'C09': 'harness.c09_resolver',
